@@ -167,14 +167,14 @@ def mk_allrows(rng, nparts):
     txt = {"gt": "v > %d", "lt": "v < %d", "sumle": "SUM(v) <= %d", "cntle": "COUNT(*) <= %d"}
     dsql = ["A AS " + txt["gt"] % ca, "B AS " + txt[kb[0]] % kb[1], "C AS " + txt[kc[0]] % kc[1]]
     part = "g" if nparts > 1 else rng.choice(["", "g"])
-    sql = ("SELECT * FROM stream MATCH_RECOGNIZE (%sORDER BY ts MEASURES MATCH_NUMBER() AS mn, CLASSIFIER() AS cls, COUNT(B.v) AS nb ALL ROWS PER MATCH AFTER MATCH SKIP PAST LAST ROW PATTERN (%s) DEFINE %s)"
+    sql = ("SELECT * FROM stream MATCH_RECOGNIZE (%sORDER BY ts MEASURES MATCH_NUMBER() AS mn, CLASSIFIER() AS cls, COUNT(B.v) AS nb, FIRST(B.v) AS fb, LAST(B.v) AS lb ALL ROWS PER MATCH AFTER MATCH SKIP PAST LAST ROW PATTERN (%s) DEFINE %s)"
            % ("PARTITION BY g " if part else "", psql(pat), ", ".join(dsql)))
     rows, pv = [], ["p0", "p1", "p2"]
     for i in range(rng.choice([7, 9, 12]) * nparts):
         r = {"id": i + 1, "ts": i + 1, "g": pv[rng.randrange(nparts)], "v": rng.choice([5, 6, 1, 1, 2, 2, 0, 3, 1])}
         if rng.random() < 0.1: del r["v"]
         rows.append(r)
-    meta = {"fam": "cep", "pat": pat, "defs": defs, "skip": "past", "part": part, "allrows": 1, "cntvar": "B"}
+    meta = {"fam": "cep", "pat": pat, "defs": defs, "skip": "past", "part": part, "allrows": 1, "cntvar": "B", "navvar": "B"}
     return {"meta": meta, "sql": sql, "rows": rows, "stop": True, "norename": True}
 
 
